@@ -230,8 +230,8 @@ def evalReq (quit : Bool) (fresh : Nat) (r : Req) : List REv × Nat :=
     let (evs, f, _) := evalChildren quit (fresh + 1) r.plans
     (.rawNew rid (some cMGet) :: evs ++ [.rawDone rid false], f)
   | .mset =>
-    let (evs, f, _) := evalChildren quit (fresh + 1) r.plans
-    (.rawNew rid (some cMSet) :: evs ++ [.rawDone rid false], f)
+    let (evs, f, errs) := evalChildren quit (fresh + 1) r.plans
+    (.rawNew rid (some cMSet) :: evs ++ [.rawDone rid (errs != 0)], f)
   | .del =>
     let (evs, f, errs) := evalChildren quit (fresh + 1) r.plans
     (.rawNew rid (some cDel) :: evs ++ [.rawDone rid (errs != 0)], f)
